@@ -1,6 +1,7 @@
 package main
 
 import (
+	"os"
 	"bytes"
 	"encoding/json"
 	"fmt"
@@ -406,6 +407,43 @@ func c12BlsPK(c Case, in c12In, input []byte) (Result, error) {
 	}
 	if err != nil || err2 != nil {
 		return Result{}, implViolation("decoding/aggregating valid BLS private keys failed: %v %v", err, err2)
+	}
+	// the FIRST PublicKey() calls on fresh key objects, several at once (a cache that is published
+	// before it is filled hands out a half-written key): every caller must get the key that a
+	// sequential call returns.  Skipped under the race detector: the cache itself is filled without
+	// synchronisation in the unchanged library (see DESIGN.md, observations).
+	if os.Getenv("VH_RACE") != "1" {
+		want := hx(key2.PublicKey().Encode())
+		for trial := 0; trial < 6; trial++ {
+			var fresh crypto.PrivateKey
+			var err error
+			if in.Route == "generated" {
+				fresh, err = crypto.GeneratePrivateKey(crypto.BLSBLS12381, append([]byte{}, input...))
+			} else {
+				fresh, err = mk(func(i int) bool { return false })
+			}
+			if err != nil {
+				break
+			}
+			var wg sync.WaitGroup
+			got := make([]string, 8)
+			start := make(chan struct{})
+			for g := range got {
+				wg.Add(1)
+				go func(g int) {
+					defer wg.Done()
+					<-start
+					got[g] = hx(fresh.PublicKey().Encode())
+				}(g)
+			}
+			close(start)
+			wg.Wait()
+			for g := range got {
+				if got[g] != want {
+					return Result{}, implViolation("first PublicKey() calls made concurrently on a fresh key: goroutine %d got %s, a sequential call gives %s", g, got[g], want)
+				}
+			}
+		}
 	}
 	p1, p2 := key.PublicKey(), key.PublicKey()
 	idem := p1.Equals(p2) && p2.Equals(p1) && hx(p1.Encode()) == hx(p2.Encode()) && key.Equals(key2) &&
